@@ -800,9 +800,10 @@ def run_chunk(task) -> dict:
                 pick = styles if task.get("all_styles") else [styles[rec["id"] % len(styles)]]
                 for st in pick:
                     variants.append((rec["toks"], st))
-                st2 = styles[(rec["id"] + 1) % len(styles)]
-                variants.append((rec["full"], st2))
-                variants.append((rec["atoms"], styles[(rec["id"] + 2) % len(styles)]))
+                if not task.get("one_text"):
+                    st2 = styles[(rec["id"] + 1) % len(styles)]
+                    variants.append((rec["full"], st2))
+                    variants.append((rec["atoms"], styles[(rec["id"] + 2) % len(styles)]))
             mvals = rec["mvals"]
             mexp = [(envs[i], q) for i, q in enumerate(mvals) if q[1] != 0]
             done = set()
